@@ -476,6 +476,8 @@ func (r *transport) handleStaleWhileRevalidate(
 	//
 	// Open a discussion at github.com/bartventer/httpcache/issues if your use case requires
 	// guaranteed completion.
+	// Served without validation: the fields of a qualified no-cache stay back.
+	internal.StripNoCacheFields(stored.Data.Header)
 	internal.SetAgeHeader(stored.Data, r.clock, freshness.Age)
 	internal.CacheStatusStale.ApplyTo(stored.Data.Header)
 	// The response now belongs to the caller: the background goroutine works on
